@@ -5,6 +5,7 @@ extern crate libc;
 extern crate md4;
 extern crate md5;
 extern crate hmac;
+extern crate yasna;
 
 mod outcome;
 mod refpeer;
@@ -18,6 +19,7 @@ mod drv_connect;
 mod drv_ntlm;
 mod drv_codec;
 mod drv_setup;
+mod drv_model;
 mod drv_nlafault;
 mod tlspeer;
 mod nlapeer;
@@ -49,6 +51,7 @@ fn main() {
         "connect" => drv_connect::run(&plans, &trace_path, &blobs),
         "setup" => drv_setup::run(&args, &plans, &trace_path, &blobs),
         "nlafault" => drv_nlafault::run(&args, &plans, &trace_path, &blobs),
+        "model" => drv_model::run(&args),
         "codec" => drv_codec::run(&args),
         "ntlm" => drv_ntlm::run(&plans, &trace_path, &blobs),
         "transport" => drv_transport::run(&args, &plans, &trace_path, &blobs),
